@@ -185,6 +185,31 @@ def c16_large(task):
     return {"cov": cov, "viol": viol}
 
 
+def c16_huge(rep):
+    """A region above 16 MiB: tails taken with negative bounds through all three views."""
+    AR = lib()["AR"]
+    sr, sw, ch = 16000, 2, 2
+    n = (1 << 22) + 1003  # samples; > 16 MiB of data
+    unit = big_content(4096, sw, ch)
+    data = unit * (n // 4096) + unit[: (n % 4096) * sw * ch]
+    r = AR(data, sr, sw, ch)
+    bps = sw * ch
+    for a, b in ((-5, None), (-3, n), (-7, 10 ** 12), (None, -n + 2), (-n - 5, 3), (n - 2, None), (-1, None)):
+        rep.add("evaluations")
+        rng = range(n)[a:b]
+        exp = data[rng.start * bps : rng.stop * bps] if len(rng) else b""
+        got = r[a:b]
+        if got.data != exp:
+            rep.violation("slice-huge [%r:%r]" % (a, b), "region[%r:%r] of %d samples holds %d samples, expected %d" % (a, b, n, len(got), len(rng)),
+                          {"kind": "c16H"})
+    for name, got, want in (("seconds[-0.25:]", r.seconds[-0.25:], data[-4000 * bps :]), ("millis[-250:]", r.millis[-250:], data[-4000 * bps :]),
+                            ("seconds[:0.001]", r.seconds[:0.001], data[: 16 * bps])):
+        rep.add("evaluations")
+        if got.data != want:
+            rep.violation("view-huge %s" % name, "%s of a %d-sample region holds %d samples, expected %d" % (name, n, len(got), len(want) // bps),
+                          {"kind": "c16H"})
+
+
 def c17_large(rep):
     """Large operands: long repetition, division into many pieces, sums and joins of many regions."""
     L = lib()
@@ -216,6 +241,30 @@ def c17_large(rep):
         rep.add("evaluations")
         if sil.join(parts).data != sil.data.join(p.data for p in parts):
             rep.violation("join-large sw=%d ch=%d" % (sw, ch), "join of 300 pieces differs from byte-level interleaving", {"kind": "c17L"})
+        for cnt in (1, 2, 31, 32, 33, 63, 64, 65, 127, 128, 129, 256, 1024):
+            rep.add("evaluations")
+            some = (small / 5) * (cnt // 5 + 1)
+            some = some[:cnt]
+            for how, got in (("list", sil.join(some)), ("generator", sil.join(x for x in some)), ("sum", sum(some))):
+                want = sil.data.join(p.data for p in some) if how != "sum" else b"".join(p.data for p in some)
+                if got.data != want:
+                    rep.violation("join-count sw=%d ch=%d n=%d %s" % (sw, ch, cnt, how),
+                                  "%s of %d regions holds %d bytes, byte-level result has %d" % (how, cnt, len(got.data), len(want)),
+                                  {"kind": "c17L"})
+        # equality: bytes and audio parameters only (a start time does not take part), also for large regions
+        for dat in (small.data, data):
+            a = AR(dat, 8000, sw, ch)
+            b = AR(bytes(dat), 8000, sw, ch, 1.5)
+            c = AR(bytes(dat), 8000, sw, ch, 0.0)
+            rep.add("evaluations")
+            if not (a == b and b == a and b == c and not (a != b)):
+                rep.violation("eq-start sw=%d ch=%d n=%d" % (sw, ch, len(dat)), "regions with equal bytes and parameters but different start compare unequal",
+                              {"kind": "c17L"})
+            d2 = bytearray(dat)
+            d2[-1] ^= 1
+            if a == AR(bytes(d2), 8000, sw, ch) or a == AR(dat, 8001, sw, ch):
+                rep.violation("eq-diff sw=%d ch=%d n=%d" % (sw, ch, len(dat)), "regions differing in the last byte or in rate compare equal",
+                              {"kind": "c17L"})
         for d in (1.0, 8.5, 0.51200625):
             rep.add("evaluations")
             s_ = core.make_silence(d, 8000, sw, ch)
@@ -344,6 +393,16 @@ def c16_type_errors(rep):
         ("millis float zero start", lambda: r.millis[0.0:300]), ("millis float zero stop", lambda: r.millis[0:0.0]),
         ("millis zero step", lambda: r.millis[0:300:0]), ("millis empty str start", lambda: r.millis["":300]),
     ]
+    e = AR(b"", 8, 2, 1)
+    cases += [("empty region step", lambda: e[::2]), ("empty region float", lambda: e[1.5:]), ("empty region str", lambda: e["a":]),
+              ("empty region non-slice", lambda: e[3]), ("empty region seconds str", lambda: e.seconds["a":]),
+              ("empty region millis float", lambda: e.millis[0.5:])]
+    # the same wrongly typed request right after its correctly typed twin (results must not be remembered by value)
+    for a, b in ((2, 9), (0, None), (-3, None), (1, 3)):
+        r[a:b]
+        r.millis[a:b]
+        cases.append(("samples float after int twin [%r:%r]" % (a, b), lambda a=a, b=b: r[float(a):b]))
+        cases.append(("millis float after int twin [%r:%r]" % (a, b), lambda a=a, b=b: r.millis[float(a):b]))
     for name, fn in cases:
         rep.add("evaluations")
         try:
@@ -602,7 +661,7 @@ def c18_work(task):
         if len(viol) < 10:
             viol.append((key, msg, dict(case, kind="c18", sw=sw, ch=ch, sr=sr)))
 
-    nmax = 6
+    nmax = 6 if tier == "quick" else 10
     for n in range(0, nmax + 1):
         data = content(n, sw, ch)
         start = 0.5
@@ -681,7 +740,8 @@ def c18_work(task):
             except Exception as exc:
                 complain(key, "raised %r" % (exc,), case)
         # load(skip, max_read) == slicing
-        instants = [0, 1 / sr, 2 / sr, 2.5 / sr, 3.5 / sr, (n - 1) / sr, n / sr, (n + 2) / sr, 0.6 / sr, 1.4 / sr]
+        instants = [0, 1 / sr, 2 / sr, 2.5 / sr, 3.5 / sr, (n - 1) / sr, n / sr, (n + 2) / sr, 0.6 / sr, 1.4 / sr,
+                    0.15, 0.35, 0.95, 0.45, 0.235, 0.00134375, 1.5 / sr, 4.5 / sr]  # incl. ties: the statement says round(s*rate)
         instants = sorted(set(x for x in instants if x >= 0))
         rawf = os.path.join(d, "s_%d.raw" % n)
         wavf = os.path.join(d, "s_%d.wav" % n)
@@ -691,18 +751,7 @@ def c18_work(task):
         for skip, mr in itertools.product(instants, [None] + instants):
             for src_kind in ("bytes", "raw", "wav", "raw_lazy", "wav_lazy"):
                 cov["evaluations"] += 1
-                amb = False
-                for x in (skip, mr):
-                    if x is None:
-                        continue
-                    q = Fraction(x) * sr
-                    fr = q - (q.numerator // q.denominator)
-                    if fr != Fraction(1, 2) and abs(fr - Fraction(1, 2)) < Fraction(1, 10 ** 9):
-                        amb = True
-                if amb:
-                    cov["ambiguous_skipped"] = cov.get("ambiguous_skipped", 0) + 1
-                    continue
-                a = round(skip * sr)
+                a = round(skip * sr)  # R4: the statement names round(s*rate), float product included
                 exp = b"".join(smp[a:] if mr is None else smp[a : a + round(mr * sr)])
                 if exp:
                     cov["distinct_nontrivial"] += 1
@@ -776,6 +825,68 @@ SAMPLE_ALPHABET = {1: [-128, -127, -100, -10, -1, 0, 1, 10, 100, 126, 127],
                    4: [-2 ** 31, -2 ** 31 + 1, -1000, -100, -10, -1, 0, 1, 10, 100, 1000, 2 ** 31 - 2, 2 ** 31 - 1]}
 
 
+def c18_numpy_large(rep):
+    """numpy() on long multi-channel regions (value counts beyond 65536, channel counts that do not divide it)."""
+    import array
+    import numpy as np
+
+    AR = lib()["AR"]
+    for sw, ch, n in ((2, 3, 30011), (2, 5, 14000), (1, 6, 12000), (4, 7, 9400), (2, 2, 40000), (2, 1, 70000)):
+        rep.add("evaluations")
+        rep.add("distinct_nontrivial")
+        data = big_content(n, sw, ch)
+        flat = array.array({1: "b", 2: "h", 4: "i"}[sw])
+        flat.frombytes(data)
+        arr = AR(data, 8000, sw, ch).numpy()
+        ok = tuple(arr.shape) == (ch, n)
+        if ok:
+            for c in range(ch):
+                want = np.array(flat[c::ch], dtype=np.float64)
+                if not (arr[c] == want).all():
+                    bad = int(np.nonzero(arr[c] != want)[0][0])
+                    rep.violation("numpy-large sw=%d ch=%d n=%d" % (sw, ch, n), "numpy()[%d][%d] is %r, sample value is %r" % (
+                        c, bad, arr[c][bad], want[bad]), {"kind": "c18npL"})
+                    break
+        else:
+            rep.violation("numpy-large sw=%d ch=%d n=%d" % (sw, ch, n), "numpy() shape %r" % (tuple(arr.shape),), {"kind": "c18npL"})
+
+
+def c18_buffers(rep):
+    """to_file() accepts bytes, bytearray, memoryview, array and numpy buffers: the file holds the same audio."""
+    import array
+    import numpy as np
+    from auditok.io import to_file
+
+    auditok = lib()["auditok"]
+    d = os.path.join(common.scratch_dir(), "c18buf")
+    os.makedirs(d, exist_ok=True)
+    for sw, ch in ((2, 1), (2, 2), (4, 1), (1, 3), (4, 3)):
+        for n in (1, 2, 3, 5, 8):
+            data = content(n, sw, ch)
+            code = {1: "b", 2: "h", 4: "i"}[sw]
+            arr = array.array(code)
+            arr.frombytes(data)
+            bufs = {"bytearray": bytearray(data), "memoryview": memoryview(data), "array": arr,
+                    "numpy": np.frombuffer(data, dtype={1: np.int8, 2: np.int16, 4: np.int32}[sw]).copy()}
+            for kind, buf in bufs.items():
+                for ext in (".wav", ".raw"):
+                    rep.add("evaluations")
+                    rep.add("distinct_nontrivial")
+                    fn = os.path.join(d, "b%s" % ext)
+                    try:
+                        to_file(buf, fn, sr=10, sw=sw, ch=ch)
+                        back = auditok.load(fn, sr=10, sw=sw, ch=ch)
+                        msg = None if back.data == data else "to_file(%s of %d samples) -> %s reads back %d bytes, wrote %d" % (
+                            kind, n, ext, len(back.data), len(data))
+                    except Exception as exc:
+                        msg = "to_file(%s) raised %r" % (kind, exc)
+                    if msg:
+                        rep.violation("tofile-buffer %s sw=%d ch=%d n=%d %s" % (kind, sw, ch, n, ext), msg, {"kind": "c18buf"})
+    import shutil
+
+    shutil.rmtree(d, ignore_errors=True)
+
+
 def c18_numpy(rep):
     AR = lib()["AR"]
     for sw in (1, 2, 4):
@@ -816,10 +927,11 @@ def run(prop, tier):
         rep = common.Report(prop, tier, "bounded-exhaustive enumeration of regions x slice bounds against Python list slicing "
                             "of the sample sequence; exact rational oracle for the seconds/millis views")
         c16_type_errors(rep)
-        nmax = 5 if quick else 7
+        c16_huge(rep)
+        nmax = 5 if quick else 12
         tasks = [("s", (sw, ch, nmax)) for sw, ch in FORMATS5] + [("c", (sw, ch)) for sw, ch in FORMATS5]
         tasks += [("L", (sw, ch)) for sw, ch in ((2, 2), (1, 3), (4, 1))]
-        rates = [4, 8, 16, 10, 44100] if quick else [4, 8, 16, 10, 44100, 3, 22050, 48000]
+        rates = [4, 8, 16, 10, 44100] if quick else [4, 8, 16, 32, 10, 44100, 3, 7, 100, 11025, 22050, 48000, 96000]
         tasks += [("v", (sr, tier)) for sr in rates]
         for part in common.pmap(_c16_dispatch, tasks):
             rep.merge(part)
@@ -842,6 +954,8 @@ def run(prop, tier):
         rep = common.Report(prop, tier, "bounded-exhaustive enumeration of contents x formats x writers x readers (eager/lazy) "
                             "and of load(skip,max_read) on/between/beyond sample instants against list slicing")
         c18_numpy(rep)
+        c18_numpy_large(rep)
+        c18_buffers(rep)
         tasks = [(sw, ch, sr, tier) for sw in (1, 2, 4) for ch in (1, 2, 3) for sr in ((10, 16000) if not quick else (10,))]
         if quick:
             tasks += [(2, 1, 16000, tier), (4, 2, 16000, tier)]
@@ -888,6 +1002,9 @@ def replay(case):
             if c.get("a") == case["a"] and c.get("b") == case["b"] and c.get("n") == case["n"] and c["kind"] == k:
                 return msg
         return part["viol"][0][1] if part["viol"] else None
+    if k == "c16H":
+        c16_huge(rep)
+        return rep.violations[0][1] if rep.violations else None
     if k == "c16L":
         part = c16_large((case["sw"], case["ch"]))
         return part["viol"][0][1] if part["viol"] else None
@@ -909,6 +1026,10 @@ def replay(case):
     elif k == "c18":
         part = c18_work((case["sw"], case["ch"], case["sr"], "quick"))
         return part["viol"][0][1] if part["viol"] else None
+    elif k == "c18npL":
+        c18_numpy_large(rep)
+    elif k == "c18buf":
+        c18_buffers(rep)
     elif k == "c18L":
         part = c18_large((case["sw"], case["ch"], case["big"]))
         return part["viol"][0][1] if part["viol"] else None
